@@ -421,6 +421,7 @@ func (w *World) TableTargets(f *FuncInfo, call *ast.CallExpr) []*types.Func {
 	info := f.Pkg.TypesInfo
 	fun := ast.Unparen(call.Fun)
 	var ix *ast.IndexExpr
+	var extra []*types.Func
 	switch x := fun.(type) {
 	case *ast.IndexExpr:
 		ix = x
@@ -429,15 +430,29 @@ func (w *World) TableTargets(f *FuncInfo, call *ast.CallExpr) []*types.Func {
 		if !ok || v.IsField() || v.Pkg() == nil || v.Parent() == v.Pkg().Scope() {
 			return nil
 		}
-		// single definition in f: v := T[k]  /  v, ok := T[k]  (also as the init of an if)
+		// one definition from the table in f: v := T[k]  /  v, ok := T[k]  (also as the init of an if); any other
+		// definition names a declared function (the default when the key is missing: v = fallback)
 		n := 0
 		ast.Inspect(f.Decl.Body, func(m ast.Node) bool {
 			as, ok := m.(*ast.AssignStmt)
 			if !ok {
 				return true
 			}
-			for _, l := range as.Lhs {
+			for i, l := range as.Lhs {
 				if id, ok := l.(*ast.Ident); ok && (info.Defs[id] == types.Object(v) || info.Uses[id] == types.Object(v)) {
+					if len(as.Rhs) == len(as.Lhs) {
+						var fn *types.Func
+						switch y := ast.Unparen(as.Rhs[i]).(type) {
+						case *ast.Ident:
+							fn, _ = info.Uses[y].(*types.Func)
+						case *ast.SelectorExpr:
+							fn, _ = info.Uses[y.Sel].(*types.Func)
+						}
+						if fn != nil {
+							extra = append(extra, fn)
+							continue
+						}
+					}
 					n++
 					if len(as.Rhs) == 1 {
 						if e, ok := ast.Unparen(as.Rhs[0]).(*ast.IndexExpr); ok && l == as.Lhs[0] {
@@ -528,6 +543,17 @@ func (w *World) TableTargets(f *FuncInfo, call *ast.CallExpr) []*types.Func {
 			if fn, ok := litInfo.Uses[y.Sel].(*types.Func); ok {
 				out = append(out, fn)
 			}
+		}
+	}
+	for _, fn := range extra {
+		dup := false
+		for _, o := range out {
+			if o == fn {
+				dup = true
+			}
+		}
+		if !dup {
+			out = append(out, fn)
 		}
 	}
 	return out
